@@ -720,23 +720,28 @@ class MessageType:
         # kingdoms/{kingdom}/phyla/{phylum}
         # becomes the regex
         # ^kingdoms/(?P<kingdom>.+?)/phyla/(?P<phylum>.+?)$
+        # Special case for wildcard resource names
+        if (self.resource_path or "") == "*":
+            return "^.*$"
+
+        # We can't just use (?P<name>[^/]+) because segments may be
+        # separated by delimiters other than '/'.
+        # Multiple delimiter characters within one schema are allowed,
+        # e.g.
+        # as/{a}-{b}/cs/{c}%{d}_{e}
+        # This is discouraged but permitted by AIP4231
+        #
+        # The text between the resource ID segments is literal text, so it
+        # is escaped (a '.' separator must only match a '.').
+        pieces = self.PATH_ARG_RE.split(self.resource_path or "")
         parsing_regex_str = (
             "^"
-            + self.PATH_ARG_RE.sub(
-                # We can't just use (?P<name>[^/]+) because segments may be
-                # separated by delimiters other than '/'.
-                # Multiple delimiter characters within one schema are allowed,
-                # e.g.
-                # as/{a}-{b}/cs/{c}%{d}_{e}
-                # This is discouraged but permitted by AIP4231
-                lambda m: "(?P<{name}>.+?)".format(name=m.groups()[0]),
-                self.resource_path or "",
+            + "".join(
+                re.escape(piece) if i % 2 == 0 else "(?P<{name}>.+?)".format(name=piece)
+                for i, piece in enumerate(pieces)
             )
             + "$"
         )
-        # Special case for wildcard resource names
-        if parsing_regex_str == "^*$":
-            parsing_regex_str = "^.*$"
 
         return parsing_regex_str
 
